@@ -52,7 +52,8 @@ func MakeBuilderfromStmt(m *sysl.Module, stmts []*sysl.Statement, excludes, pass
 	for _, stmt := range stmts {
 		if a, ok := stmt.Stmt.(*sysl.Statement_Action); ok {
 			app := apps[a.Action.Action]
-			if app != nil && !syslutil.HasPattern(app.GetAttrs(), "human") {
+			// an app that is on the exclude list is not drawn, even if the project lists it
+			if app != nil && !syslutil.HasPattern(app.GetAttrs(), "human") && !excludes.Contains(a.Action.Action) {
 				b.SeedApps = append(b.SeedApps, a.Action.Action)
 				b.FinalApps = append(b.FinalApps, a.Action.Action)
 			}
